@@ -185,6 +185,8 @@ func C02(c *core.Ctx) {
 	accumulatorRule(c, "C02-R3", []string{"tax"})
 	rowSeedRule(c, "C02-R3")
 	c02Included(c)
+	c.Rule("C02-R5", "each group's amount (and surcharge) is Percent.Of(the group's stored Base)", 2)
+	rateAmountFromBase(c, "C02-R5")
 }
 
 func c02Matching(c *core.Ctx) {
@@ -412,59 +414,144 @@ func c02Retained(c *core.Ctx) {
 	found := false
 	for _, fd := range p.Funcs(p.Pkg("tax")) {
 		info := fd.Pkg.TypesInfo
+		var ff *core.FuncFlow
 		ast.Inspect(fd.Decl.Body, func(n ast.Node) bool {
-			is, ok := n.(*ast.IfStmt)
-			if !ok {
+			rs, ok := n.(*ast.RangeStmt)
+			if !ok || rs.Value == nil {
 				return true
 			}
-			f := core.FieldOf(info, is.Cond)
-			if f == nil || f.Name() != "Retained" || is.Else == nil {
+			cat := core.VarOf(info, rs.Value)
+			if cat == nil {
 				return true
 			}
-			eb, ok := is.Else.(*ast.BlockStmt)
-			if !ok {
+			if nn, _ := core.StructOf(cat.Type()); nn == nil || nn.Obj().Name() != "CategoryTotal" {
+				return true
+			}
+			// accumulations into the summary's Sum inside this loop
+			type acc struct {
+				as     *ast.AssignStmt
+				op     string // Add / Subtract / "" for a function value
+				fnVar  *types.Var
+				addend string
+			}
+			var accs []acc
+			ast.Inspect(rs.Body, func(m ast.Node) bool {
+				as, ok := m.(*ast.AssignStmt)
+				if !ok || len(as.Lhs) != 1 || len(as.Rhs) != 1 {
+					return true
+				}
+				f := core.FieldOf(info, as.Lhs[0])
+				if f == nil || f.Name() != "Sum" {
+					return true
+				}
+				call, ok := ast.Unparen(as.Rhs[0]).(*ast.CallExpr)
+				if !ok {
+					return true
+				}
+				if fn := core.Callee(info, call); isAmountMethod(fn, "Add", "Subtract") && len(call.Args) == 1 && sameLoc(info, as.Lhs[0], core.RecvExpr(call)) {
+					accs = append(accs, acc{as, fn.Name(), nil, types.ExprString(call.Args[0])})
+					return true
+				}
+				if v := core.VarOf(info, call.Fun); v != nil && len(call.Args) == 2 && sameLoc(info, as.Lhs[0], call.Args[0]) {
+					if _, isSig := v.Type().Underlying().(*types.Signature); isSig {
+						accs = append(accs, acc{as, "", v, types.ExprString(call.Args[1])})
+					}
+				}
+				return true
+			})
+			if len(accs) == 0 {
 				return true
 			}
 			found = true
-			// flatten each branch into a sequence of (guard, dest, op, addend)
-			type step struct{ guard, dest, op, addend string }
-			var flat func(list []ast.Stmt, guard string) []step
-			flat = func(list []ast.Stmt, guard string) []step {
-				var out []step
-				for _, s := range list {
-					switch st := s.(type) {
-					case *ast.AssignStmt:
-						if len(st.Lhs) == 1 && len(st.Rhs) == 1 {
-							if call, ok := ast.Unparen(st.Rhs[0]).(*ast.CallExpr); ok && isAmountMethod(core.Callee(info, call), "Add", "Subtract") {
-								out = append(out, step{guard, types.ExprString(st.Lhs[0]) + "=" + types.ExprString(core.RecvExpr(call)), core.Callee(info, call).Name(), types.ExprString(call.Args[0])})
-								continue
-							}
-						}
-						out = append(out, step{guard, "?", "?", types.ExprString(st.Lhs[0])})
-					case *ast.IfStmt:
-						out = append(out, flat(st.Body.List, guard+"&&"+types.ExprString(st.Cond))...)
-					default:
-						out = append(out, step{guard, "?", "?", fmt.Sprintf("%T", s)})
+			if ff == nil {
+				ff = core.NewFuncFlow(fd)
+			}
+			retainedAt := func(n ast.Node) (val, known bool) {
+				node := ff.Flow.EnclosingNode(n)
+				if node == nil {
+					return false, false
+				}
+				for l, v := range ff.Flow.CondsAt(node) {
+					if f := core.FieldOf(info, l); f != nil && f.Name() == "Retained" && core.RootVar(info, l) == cat {
+						return v, true
 					}
 				}
-				return out
+				return false, false
 			}
-			a, b := flat(is.Body.List, ""), flat(eb.List, "")
-			ok = len(a) == len(b) && len(a) > 0
-			why := fmt.Sprintf("retained branch has %d steps, ordinary branch %d", len(a), len(b))
-			for i := 0; ok && i < len(a); i++ {
-				if a[i].guard != b[i].guard || a[i].dest != b[i].dest || a[i].addend != b[i].addend {
-					ok, why = false, fmt.Sprintf("step %d differs: retained {%s %s %s} vs ordinary {%s %s %s}", i+1, a[i].dest, a[i].op, a[i].addend, b[i].dest, b[i].op, b[i].addend)
-				} else if a[i].op != "Subtract" || b[i].op != "Add" {
-					ok, why = false, fmt.Sprintf("step %d: the retained branch uses %s and the ordinary branch %s (must be Subtract / Add): %s", i+1, a[i].op, b[i].op, a[i].addend)
+			okAll, why := true, ""
+			retained, ordinary := map[string]int{}, map[string]int{}
+			for _, a := range accs {
+				if a.fnVar == nil {
+					val, known := retainedAt(a.as)
+					switch {
+					case !known:
+						okAll, why = false, fmt.Sprintf("%s at %s is not conditioned on the category's Retained flag", a.op, p.Rel(a.as.Pos()))
+					case val && a.op != "Subtract":
+						okAll, why = false, fmt.Sprintf("a retained category's %s is added at %s", a.addend, p.Rel(a.as.Pos()))
+					case !val && a.op != "Add":
+						okAll, why = false, fmt.Sprintf("an ordinary category's %s is subtracted at %s", a.addend, p.Rel(a.as.Pos()))
+					}
+					if val {
+						retained[a.addend]++
+					} else {
+						ordinary[a.addend]++
+					}
+					continue
+				}
+				// the operation is a function value: every definition is Amount.Add / Amount.Subtract,
+				// Subtract only under Retained, and the variable is reset in every iteration
+				// before the accumulation (a choice made for one category must not carry over)
+				ld := core.NewLocalDefs(info, fd.Decl.Body)
+				reset := false
+				for _, d := range ld.All(a.fnVar) {
+					name := ""
+					if d.RHS != nil {
+						if se, ok := ast.Unparen(d.RHS).(*ast.SelectorExpr); ok {
+							if fn, _ := info.Uses[se.Sel].(*types.Func); isAmountMethod(fn, "Add", "Subtract") {
+								name = fn.Name()
+							}
+						}
+					}
+					in := d.Stmt != nil && rs.Body.Pos() <= d.Stmt.Pos() && d.Stmt.End() <= rs.Body.End()
+					switch name {
+					case "":
+						okAll, why = false, fmt.Sprintf("the operation applied at %s is a function value that is not always Amount.Add or Amount.Subtract", p.Rel(a.as.Pos()))
+					case "Subtract":
+						if val, known := retainedAt(d.Stmt); !in || !known || !val {
+							okAll, why = false, "Amount.Subtract is chosen where the category is not known to be retained"
+						}
+					case "Add":
+						if in && d.Stmt.Pos() < a.as.Pos() {
+							for _, st := range rs.Body.List {
+								if st == d.Stmt {
+									reset = true
+								}
+							}
+						}
+					}
+				}
+				if okAll && !reset {
+					okAll, why = false, fmt.Sprintf("the operation variable `%s` is not reset to Amount.Add at the start of each iteration: once a retained category has been seen, every later category is subtracted as well", a.fnVar.Name())
 				}
 			}
-			c.Ob("C02-R2", fd.Name()+"#retained-mirror", is.Pos(), ok, "the retained and the ordinary branch of the tax total are not mirror images (same amounts, Subtract vs Add, surcharges included): "+why)
+			if okAll {
+				for k, v := range retained {
+					if ordinary[k] != v {
+						okAll, why = false, fmt.Sprintf("%s is subtracted for retained categories but not added for ordinary ones (or vice versa)", k)
+					}
+				}
+				for k, v := range ordinary {
+					if retained[k] != v {
+						okAll, why = false, fmt.Sprintf("%s is added for ordinary categories but not subtracted for retained ones", k)
+					}
+				}
+			}
+			c.Ob("C02-R2", fd.Name()+"#retained-mirror", rs.Pos(), okAll, "the tax total does not add ordinary categories and subtract retained ones symmetrically (same amounts, surcharges included): "+why)
 			return true
 		})
 	}
 	if !found {
-		c.Ob("C02-R2", "UNRESOLVED:retained-branch", token.NoPos, false, "no `if <category>.Retained {…} else {…}` found in package tax")
+		c.Ob("C02-R2", "UNRESOLVED:retained-branch", token.NoPos, false, "no loop over the categories that accumulates into the summary's Sum found in package tax")
 	}
 }
 
